@@ -146,18 +146,33 @@ def audit(modules):
 
 
 def build_harness(race=False):
+    """go build of tools/harness against REPO's working tree (module `replace`).  The sources are
+    staged into build/harness-src so that go.mod / go.sum can point at REPO without touching the
+    tracked files."""
     t0 = time.time()
     hd = os.path.join(VERIF, "tools/harness")
-    # go.sum of the repository is the authority for module hashes
+    st = os.path.join(BUILD, "harness-src")
+    os.makedirs(st, exist_ok=True)
+    keep = set()
+    for fn in os.listdir(hd):
+        if fn.endswith(".go"):
+            keep.add(fn)
+            src = open(os.path.join(hd, fn)).read()
+            dst = os.path.join(st, fn)
+            if not os.path.exists(dst) or open(dst).read() != src:
+                open(dst, "w").write(src)
+    for fn in os.listdir(st):
+        if fn.endswith(".go") and fn not in keep:
+            os.remove(os.path.join(st, fn))
+    gm = open(os.path.join(hd, "go.mod")).read().replace("=> /repo", "=> " + REPO)
+    open(os.path.join(st, "go.mod"), "w").write(gm)
     try:
-        gs = open(os.path.join(REPO, "go.sum")).read()
-        if not os.path.exists(os.path.join(hd, "go.sum")) or open(os.path.join(hd, "go.sum")).read() != gs:
-            open(os.path.join(hd, "go.sum"), "w").write(gs)
+        open(os.path.join(st, "go.sum"), "w").write(open(os.path.join(REPO, "go.sum")).read())
     except OSError:
         pass
     out_bin = os.path.join(BUILD, "harness-race" if race else "harness")
     cmd = ["go", "build", "-tags", "verif"] + (["-race"] if race else []) + ["-o", out_bin, "."]
-    rc, out = run(cmd, cwd=hd, env=goenv(), timeout=1200)
+    rc, out = run(cmd, cwd=st, env=goenv(), timeout=1200)
     return rc == 0, out, time.time() - t0, out_bin
 
 
